@@ -11,6 +11,8 @@ ENGINES = [
          kind_free_text="rapidcheck-generated scenarios against reproc++ linked to a recording mock of the C API"),
     dict(name="winstub", path="src/winstub + src/props/C18.cpp + src/fuzz/C18_fuzz.cpp", serves_properties=["C18"],
          kind_free_text="Windows sources compiled on stub headers; exhaustive small-scope sweep + rapidcheck + libFuzzer with a round-trip oracle"),
+    dict(name="vtime", path="src/common/vtime.hpp + src/vsys (hooks) + src/puppet.c + src/model/*.hpp", serves_properties=["C01", "C07", "C08", "C09", "C15", "C17"],
+         kind_free_text="discrete-event scheduler with a virtual millisecond clock behind clock_gettime/poll/blocking read/write/waitpid; real kernel pipes and signals; scripted children; reference models as oracles"),
     dict(name="dry", path="src/vsys/vsys.c (DRY mode) + src/model/options_model.hpp + src/props/C13.cpp", serves_properties=["C13"],
          kind_free_text="real reproc_start against a fake kernel in the shim; exhaustive enumeration of the option rule cube against an executable model of reproc.h"),
     dict(name="real", path="src/vsys + src/puppet.c + src/common/harness.cpp", serves_properties=["C03", "C04", "C05", "C06", "C10", "C11", "C12"],
@@ -272,4 +274,25 @@ prop(
     exhaustive=dict(quick=True, thorough=True),
     exhaustive_scope="all single fault points of the 17 start scenarios; histories are sampled",
     assumptions=["one operation of a kind per child at a time (README, Multithreading)"],
+)
+
+prop(
+    "C07",
+    title="Stop sequences escalate in order, report truthfully and respect their timeouts",
+    level="exploration",
+    engine="vtime",
+    campaigns=[dict(bin="C07", sweep=True, random=dict(quick=3000, thorough=80000))],
+    level_text=("All 5^3 shapes of three actions from {noop, wait, terminate, kill, out-of-range} x 8 child behaviours are enumerated (x4 draws quick, x40 thorough) with generated timeouts "
+                "{0, finite up to 1e7, INFINITE, DEADLINE}, deadlines, call times and handle states, on a virtual millisecond clock: an independent interpreter of the documented contract "
+                "predicts the ordered signal log with time stamps, the exact virtual duration and the result; 'would wait for ever' is a detected state. Exhaustive over action shapes only."),
+    level_note="Virtual time replaces only *when* things happen; pipes, signals, poll readiness and reaping are the real kernel's. Exact ties between the child's death and the end of a wait window accept both resolutions.",
+    technique="model-based property testing on a virtual clock (rapidcheck tape + exhaustive action shapes), reference interpreter of the documented stop contract as oracle",
+    rule=("sweep index -> (action shape, child behaviour in {dies on TERM, ignores TERM, dies after short/long delay, exits by itself before/during/after the sequence, exits by itself and ignores TERM}); "
+          "tape -> timeouts (incl. constructed around the child's delay/exit time), deadline none/future/expired, call time, prior wait (reaped / polled), epoch (incl. > 2^31 and > 2^41 ms). "
+          "Non-trivial: at least two non-noop actions, or a timed-out step followed by anything, or an out-of-range action, or the child ending during the sequence. "
+          "Distinct: hash of shape, timeout classes, behaviour, delays and times."),
+    essential=dict(quick=["expect-status", "expect-timeout", "expect-einval", "expect-unbounded-wait", "all-noop", "step-timed-out", "child-ended-during-stop", "already-reaped", "exited-not-reaped", "with-deadline"]),
+    exhaustive=dict(quick=False, thorough=False),
+    exhaustive_scope="the 125 action shapes x 8 child behaviours are each visited; timeouts and times are sampled",
+    assumptions=["out-of-range action values are 4, 7 and -1", "a signal sent to a child that has exited but is not yet reaped is permitted (the pid is still the child's)"],
 )
